@@ -97,6 +97,20 @@ struct Reg {
     };
     // quick tier: amplitudes of one primitive field vanishing together (the full d<=2 ball is the thorough tier)
     s.zero_pair_group = [](const std::string& n) { if (n.size() > 2 && n[0] == 'a' && n[1] == '_') { size_t k = 2; std::string f; while (k < n.size() && n[k] != '0' && n[k] != 'x' && n[k] != 'y' && n[k] != 'z') f.push_back(n[k++]); return "amp_" + f; } return std::string(); };
+    // structured configurations: primitive field f does not depend on the coordinates in D (all amplitudes of modes that involve a
+    // direction of D are zero), for every field and every non-empty proper subset D of {x,y,z}; and: f is steady (all f_* zero)
+    s.structured = [](const std::vector<std::string>& names) {
+      std::vector<std::vector<std::pair<std::string, LD>>> out; const char* modes[] = {"x", "y", "z", "xy", "xz", "yz"};
+      for (const char* f : {"rho", "u", "v", "w", "T"}) {
+        for (int D = 1; D < 7; D++) {  // bit 0: x, bit 1: y, bit 2: z
+          std::vector<std::pair<std::string, LD>> set;
+          for (const char* m : modes) { bool hit = false; for (const char* c = m; *c; c++) if (D & (1 << (*c - 'x'))) hit = true; if (hit) set.push_back({std::string("a_") + f + m, 0.0L}); }
+          out.push_back(set);
+        }
+        std::vector<std::pair<std::string, LD>> steady; for (const char* m : {"0", "x", "y", "z", "xy", "xz", "yz"}) steady.push_back({std::string("f_") + f + m, 0.0L}); out.push_back(steady);
+      }
+      return out;
+    };
     s.reference = pl_ref;
     s.max_dev_quick = 1; s.max_dev_thorough = 2;
     e1_systems().push_back(s);
